@@ -235,6 +235,30 @@ fn explore(ctx: &Ctx, fam: &str, t: &Target, prefix: &[(usize, Ans)], parent_cal
     }
 }
 
+/// reader whose `at`-th delivering call (usize::MAX: every call) first answers Interrupted `m` times
+struct Burst<'a> {
+    data: &'a [u8],
+    pos: usize,
+    at: usize,
+    m: u32,
+    delivered: usize,
+    pending: u32,
+}
+impl<'a> Read for Burst<'a> {
+    fn read(&mut self, buf: &mut [u8]) -> io::Result<usize> {
+        if (self.at == usize::MAX || self.delivered == self.at) && self.pending < self.m {
+            self.pending += 1;
+            return Err(io::Error::new(ErrorKind::Interrupted, "injected transient interruption"));
+        }
+        self.pending = 0;
+        self.delivered += 1;
+        let n = buf.len().min(self.data.len() - self.pos);
+        buf[..n].copy_from_slice(&self.data[self.pos..self.pos + n]);
+        self.pos += n;
+        Ok(n)
+    }
+}
+
 /// reader that delivers at most `m` bytes per call, optionally failing once `fail_at` bytes were delivered
 struct Chunked<'a> {
     data: &'a [u8],
@@ -500,6 +524,36 @@ pub fn run(ctx: &Ctx) -> i32 {
             });
         }
         ctx.family("uniform-read-sizes", n, "every maximum read size m in {1..64,127,128,255,256,4095,4096} x wrapper {none, BufReader capacity 1/2/3/7/8192} on every target file", true);
+    }
+
+    // (2b) bursts of transient interruptions: the call that would deliver data answers Interrupted m times first
+    if ctx.wants_family("interrupt-bursts") {
+        const BURSTS: [u32; 8] = [2, 4, 8, 9, 10, 16, 100, 1000];
+        let mut n = 0u64;
+        for t in &targets {
+            let nc = run_script(t, &[]).1.len();
+            // (delivering call index or usize::MAX = every call, burst length)
+            let mut cases: Vec<(usize, u32)> = (0..nc).flat_map(|i| BURSTS.iter().map(move |m| (i, *m))).collect();
+            cases.extend([1u32, 2, 9, 10].iter().map(|m| (usize::MAX, *m)));
+            n += cases.len() as u64;
+            cases.par_iter().for_each(|(at, m)| {
+                let case = || if *at == usize::MAX { format!("{} every call interrupted x{}", t.name, m) } else { format!("{} call#{} interrupted x{}", t.name, at, m) };
+                if !ctx.wants("interrupt-bursts", &case) {
+                    return;
+                }
+                let rd = Burst { data: &t.bytes, pos: 0, at: *at, m: *m, delivered: 0, pending: 0 };
+                let r = catch_unwind(AssertUnwindSafe(|| AsepriteFile::read(rd)));
+                ctx.eval(nc as u64 + *m as u64);
+                let v = |sig: String, detail: String| ctx.violation(Violation { family: "interrupt-bursts".into(), case: case(), sig, detail, bytes: Some(t.bytes.clone()), extra: json!({}) });
+                match classify(r, &t.want) {
+                    Outcome::Ok(d) if d == t.baseline => ctx.outcome(hash64(&("ok", d))),
+                    Outcome::Ok(_) => v("result-differs".into(), "sprite differs from the in-memory load".into()),
+                    Outcome::Err(e) => v(format!("spurious-error:{}", err_variant(&e)), format!("only transient interruptions were injected but load failed: {}", e)),
+                    Outcome::Panic(m) => v(format!("panic:{}", sig_of(&m)), m),
+                }
+            });
+        }
+        ctx.family("interrupt-bursts", n, "every read() call of the default schedule, on every target file, answers ErrorKind::Interrupted 2 / 4 / 8 / 9 / 10 / 16 / 100 / 1000 times in a row before it delivers its data; and every call does so 1 / 2 / 9 / 10 times; the load must return the in-memory sprite", true);
     }
 
     // (3) other reader types: Cursor<Vec<u8>>, &[u8], file-backed
